@@ -321,6 +321,17 @@ func (g *G) Value(typ reflect.Type) reflect.Value {
 		g.depth--
 	case reflect.Ptr:
 		et := typ.Elem()
+		if et == TimeType {
+			// pointer to a timestamp: nil, or a non-zero instant (a zero one is written as null)
+			if rapid.IntRange(0, 2).Draw(g.T, g.name("ptrtime")) == 0 {
+				return v
+			}
+			tm := g.Time()
+			if tm.IsZero() {
+				tm = time.Unix(1, 5e6)
+			}
+			return reflect.ValueOf(&tm)
+		}
 		if et.Kind() != reflect.Struct {
 			panic("zoo: pointer to non-struct not generated: " + typ.String())
 		}
